@@ -28,6 +28,15 @@ def main(argv):
     R = report.Report(prop, tier, F)
     R.t0 = t0
     R.assumptions.extend(COMMON_ASSUMPTIONS)
+    nh = getattr(F, "new_helpers", None) or {}
+    if getattr(F, "renamed", None):
+        R.assumptions.append("functions recognised as renamed / moved (same signature) and read under the id the rules know: %s"
+                             % ", ".join("%s <- %s" % (o.rsplit("::", 1)[-1], n.rsplit("::", 1)[-1]) for o, n in F.renamed))
+    if nh.get("inlined") or nh.get("combinators") or nh.get("unrolled"):
+        R.assumptions.append("normalisation of this tree before the rules ran: %d new helper call(s) analysed in place (%s), combinators "
+                             "written out in %d function(s), %d array loop(s) unrolled"
+                             % (len(nh.get("inlined", [])), ", ".join(sorted({c.rsplit("::", 1)[-1] for _, c in nh.get("inlined", [])})) or "-",
+                                len(nh.get("combinators", [])), sum(n for _, n in nh.get("unrolled", []))))
     try:
         mod = importlib.import_module("rules." + prop.lower())
     except ImportError:
